@@ -710,3 +710,23 @@ package cose
 //@   ensures accept [C05, C09]: err == nil ==> sigDecoded(bytes(data), s)
 //@   ensures err_frame [C19]: err != nil && s != nil ==> *s == old(*s)
 //@   modifies frame [C18, C19]: *s
+
+// ===================================================================
+// cbor.go: configuration of the CBOR library (C05, C07, C08)
+//   numeric values of the cbor constants (fxamacker/cbor v2.5.0): SortCoreDeterministic = 2, IndefLengthForbidden = 1,
+//   DupMapKeyEnforcedAPF = 1, IntDecConvertSigned = 1, TagsForbidden = 1, TagsAllowed = 0
+// ===================================================================
+
+//@ func init#1
+//@   ensures enc_config [C05, C07, C08]: encMode != nil && encopts(encMode).Sort == 2 && encopts(encMode).IndefLength == 1
+//@         && encopts(encMode).TagsMd == 0 && encopts(encMode).ShortestFloat == 0 && encopts(encMode).NaNConvert == 0 && encopts(encMode).InfConvert == 0
+//@         && encopts(encMode).BigIntConvert == 0 && encopts(encMode).Time == 0 && encopts(encMode).TimeTag == 0 && encopts(encMode).NilContainers == 0
+//@   ensures dec_config [C05, C07]: decMode != nil && decopts(decMode).DupMapKey == 1 && decopts(decMode).IndefLength == 1 && decopts(decMode).IntDec == 1
+//@         && decopts(decMode).TagsMd == 0 && decopts(decMode).MaxNestedLevels == 0 && decopts(decMode).MaxArrayElements == 0 && decopts(decMode).MaxMapPairs == 0
+//@         && decopts(decMode).TimeTag == 0 && decopts(decMode).MapKeyByteString == 0 && decopts(decMode).ExtraReturnErrors == 0 && decopts(decMode).UTF8 == 0 && decopts(decMode).DefaultMapType == nil
+//@   ensures dec_tf_config [C05, C07]: decModeWithTagsForbidden != nil && decopts(decModeWithTagsForbidden).TagsMd == 1
+//@         && decopts(decModeWithTagsForbidden).DupMapKey == 1 && decopts(decModeWithTagsForbidden).IndefLength == 1 && decopts(decModeWithTagsForbidden).IntDec == 1
+//@         && decopts(decModeWithTagsForbidden).MaxNestedLevels == 0 && decopts(decModeWithTagsForbidden).MaxArrayElements == 0 && decopts(decModeWithTagsForbidden).MaxMapPairs == 0
+//@         && decopts(decModeWithTagsForbidden).TimeTag == 0 && decopts(decModeWithTagsForbidden).MapKeyByteString == 0 && decopts(decModeWithTagsForbidden).ExtraReturnErrors == 0
+//@         && decopts(decModeWithTagsForbidden).UTF8 == 0 && decopts(decModeWithTagsForbidden).DefaultMapType == nil
+//@   modifies frame: anything
